@@ -301,6 +301,11 @@ func PairingCheck(api frontend.API, P []G1Affine, Q []G2Affine) error {
 		xNegOverY[k] = api.Neg(xNegOverY[k])
 	}
 
+	// residueWitness must be invertible: with residueWitness = scalingFactor = 0
+	// the final check would read 0 == 0 for any P, Q.
+	var residueWitnessInv GT
+	residueWitnessInv.Inverse(api, residueWitness)
+
 	// init Miller loop accumulator to residueWitness to share the squarings
 	// of residueWitness^{x₀}
 	res := residueWitness
